@@ -469,14 +469,15 @@ def _prep_iterators(mol: Molecules, shape: tuple[int, int, int], scale: float):
     # image slice must be integer so split it into two parts
     pos = mol.pos / scale
     intpos = pos.astype(np.int32)
-    residue = pos - intpos.astype(np.float32)
 
     # construct matrices
     center = (np.array(shape) - 1.0) / 2.0
     starts = intpos - center.astype(np.int32)
     stops = starts + shape
+    # the template center must land on `pos`, which is `pos - starts` in the fragment
+    # coordinates (this differs from `center + residue` for even-sized templates)
     mtxs = _compose_affine_matrices(
-        center, mol.rotator.inv(), output_center=center + residue
+        center, mol.rotator.inv(), output_center=pos - starts
     )
 
     return starts, stops, mtxs
